@@ -243,13 +243,17 @@ Definition market_resolve (s : chain) (tk : ticket) (uid rts : Z) (winners : lis
 
 (* ---- authz ------------------------------------------------------------------------------------------------ *)
 (* utils/authorization.go ValidateMsgAuthorization + Deposit/WithdrawAuthorization.Accept *)
-Definition use_grant (gs : list grant) (grantee granter kind amount : Z) : option (list grant) :=
+(* GetAuthorization returns a grant whose expiration is not BEFORE the block time; Accept; then DeleteGrant when the limit is
+   used up, else SaveGrant of the reduced authorization with the SAME expiration -- and authz.NewGrant refuses an expiration
+   that is not AFTER the block time: a grant expiring exactly at the block time can still be used up, but not partly *)
+Definition use_grant (now : Z) (gs : list grant) (grantee granter kind amount : Z) : option (list grant) :=
   match findb (grant_is grantee granter kind) gs with
   | None => None
   | Some g =>
       let left := g_limit g - amount in
       if left <? 0 then None
       else if left =? 0 then Some (remb (grant_is grantee granter kind) gs)
+      else if (0 <=? g_exp g) && (g_exp g <=? now) then None
       else Some (upd (grant_is grantee granter kind)
                      {| g_grantee := grantee; g_granter := granter; g_kind := kind; g_limit := left; g_exp := g_exp g |} gs)
   end.
@@ -291,7 +295,7 @@ Definition deposit_validate (s : chain) (signer : Z) (tk : ticket) (mkt amount :
     let onbehalf := (0 <=? dep) && negb (dep =? signer) in
     if onbehalf && negb authz_allowed then None else
     let depositor := if onbehalf then dep else signer in
-    match (if onbehalf then use_grant (c_grants s) signer dep GK_DEPOSIT amount else Some (c_grants s)) with
+    match (if onbehalf then use_grant (c_now s) (c_grants s) signer dep GK_DEPOSIT amount else Some (c_grants s)) with
     | None => None
     | Some grants => if negb (kyc_ok ky depositor) then None else Some (depositor, grants)
     end.
@@ -330,7 +334,7 @@ Definition withdraw_core (s : chain) (signer depositor mkt pidx mode amount : Z)
           match calc_withdrawal (ms_book x) depositor pidx mode (d_wtotal d) amount with
           | None => None
           | Some amt =>
-              match (if onbehalf then use_grant (c_grants s) signer depositor GK_WITHDRAW amt else Some (c_grants s)) with
+              match (if onbehalf then use_grant (c_now s) (c_grants s) signer depositor GK_WITHDRAW amt else Some (c_grants s)) with
               | None => None
               | Some grants =>
                   match withdraw_participation (ms_book x) pidx amt with
